@@ -159,6 +159,7 @@ pub fn gen_gz(rng: &mut Rng) -> Gz {
     }
 }
 
+#[derive(Clone, Copy)]
 pub struct C17;
 
 impl C17 {
